@@ -60,10 +60,12 @@ UsedWidth(s) ==
 WidthEquation(s) == LET u == UsedWidth(s) IN u[1] + s.bl + s.pl + u[2] + s.pr + s.br + u[3] = CB
 
 ---------------------------------------------------------------------------
-(* Mode "vertical": boxes are records [mt, mb, bt, bb, h, kids] ; kids is a sequence of boxes *)
+(* Mode "vertical": boxes are records [mt, mb, bt, bb, h, mh, kids] ; kids is a sequence of boxes *)
 Margins == {-3, 0, 5}
-Leaf == {[mt |-> a, mb |-> b, bt |-> c, bb |-> d, h |-> e, kids |-> <<>>] : a \in Margins, b \in Margins, c \in {0, 1}, d \in {0, 1}, e \in {Auto, 0, 4}}
-WithKids(K) == {[mt |-> a, mb |-> b, bt |-> c, bb |-> d, h |-> e, kids |-> k] : a \in Margins, b \in Margins, c \in {0, 1}, d \in {0, 1}, e \in {Auto, 0, 4}, k \in K}
+\* mh: min-height (on leaves): the used height is at least mh (10.7), and a box with a non-zero min-height does not collapse
+\* through (8.3.1)
+Leaf == {[mt |-> a, mb |-> b, bt |-> c, bb |-> d, h |-> e, mh |-> m, kids |-> <<>>] : a \in Margins, b \in Margins, c \in {0, 1}, d \in {0, 1}, e \in {Auto, 0, 4}, m \in {0, 3}}
+WithKids(K) == {[mt |-> a, mb |-> b, bt |-> c, bb |-> d, h |-> e, mh |-> 0, kids |-> k] : a \in Margins, b \in Margins, c \in {0, 1}, d \in {0, 1}, e \in {Auto, 0, 4}, k \in K}
 \* forests of at most two boxes: two siblings, or a parent with one child, or a single box
 Forests2 == {<<x>> : x \in Leaf} \cup {<<x, y>> : x \in Leaf, y \in Leaf} \cup {<<p>> : p \in WithKids({<<c>> : c \in Leaf})}
 
@@ -86,7 +88,7 @@ Kids(ks, y, P, acc) ==
 V(b, y, P) ==
   LET P1 == Append(P, b.mt)
       fixedH == b.h # Auto
-      ch == IF fixedH THEN b.h ELSE 0 IN
+      ch == Max(IF fixedH THEN b.h ELSE 0, b.mh) IN
   IF b.kids = <<>> THEN
     IF b.bt = 0 /\ b.bb = 0 /\ ch = 0
     THEN \* the margins collapse through the box: its position is not observable
